@@ -318,11 +318,27 @@ def c07(obj, kind, case, cfg, rec, rng):
             rec('C07:transform#post.row_wise_' + name, False, 'transform of a %s of the training rows: %s' % (name, a[0])); continue
         exp = full.iloc[rows]
         rec('C07:transform#post.row_wise_' + name, frame_equal(a[1], exp), 'rows of the %s differ from the corresponding rows of the full result' % name, dict(rows=rows[:10]))
+    # single rows (the smallest subsets): the label of a row depends only on that row's values
+    for i_ in idx[:6]:
+        a = outcome(lambda: obj.transform(X.iloc[[i_]]))
+        rec('C07:transform#post.row_wise_subset', a[0] == 'ok' and frame_equal(a[1], full.iloc[[i_]]), 'transform of row %d alone: %s' % (i_, a[0] if a[0] != 'ok' else 'differs from that row of the full result'), dict(rows=[i_], single_row=True))
     for name, newidx in (('offset_index', [i + 1000 for i in range(len(X))]), ('string_index', ['r%d' % i for i in range(len(X))]), ('shuffled_int_index', idx)):
         Xr = X.copy(); Xr.index = newidx
         a = outcome(lambda: obj.transform(Xr))
         ok = a[0] == 'ok' and list(a[1].index) == newidx and all(series_list(a[1][c]) == series_list(full[c]) for c in full.columns)
         rec('C07:transform#post.reindexing_equivariant', ok, 'transform with %s: %s' % (name, a[0] if a[0] != 'ok' else 'values differ'), dict(index=name))
+    # an unseen NUMERIC category of a numeric-looking qualitative feature: same output for that row whether or not another row of the frame holds a missing value
+    for f in obj.features:
+        if f not in obj.qualitative_features: continue
+        raw = ob.raw_feature_of(obj, f); known = [v for v in pd.unique(X[raw].dropna())]
+        if not known or not all(isinstance(v, (int, float, np.integer, np.floating)) and not isinstance(v, bool) for v in known): continue
+        if not obj.values_orders[f].contains(obj.str_nan): continue
+        base = {c: (X[c].dropna().iloc[0] if X[c].notna().any() else np.nan) for c in X.columns}
+        def frame(vals):
+            d = pd.DataFrame({c: pd.Series([base[c]] * len(vals), dtype=X[c].dtype) for c in X.columns}); d[raw] = pd.Series(vals, dtype=float); return d
+        A = outcome(lambda: obj.transform(frame([98765.0, float(known[0])]))); B = outcome(lambda: obj.transform(frame([98765.0, float(known[0]), np.nan])))
+        same = (A[0] == B[0]) and (A[0] != 'ok' or all((isnan(u) and isnan(v)) or u == v for u, v in zip(A[1][f].tolist(), B[1][f].tolist()[:2])))          # (0 and 0.0 are the same label)
+        rec('C07:transform#post.row_wise_subset', same, 'feature %s: rows [98765.0, %r] give %s alone and %s next to a row holding a missing value' % (f, known[0], A[1][f].tolist() if A[0] == 'ok' else A[0], B[1][f].tolist()[:2] if B[0] == 'ok' else B[0]), dict(feature=f, unseen_numeric_category=True))
     again = outcome(lambda: obj.transform(X))
     rec('C07:transform#post.repeatable', again[0] == 'ok' and frame_equal(again[1], full), 'second transform differs')
     rec('C07:transform#frame.fitted_state_unchanged', json.dumps(obj.to_json(), sort_keys=True, default=str) == state0, 'to_json() changed after transform calls')
@@ -351,6 +367,12 @@ def c07_fit(kind, case, cfg, rec):
     a = outcome(lambda: o1.transform(case['X']))
     for k in ('X',):
         rec('C07:transform#frame.caller_data_unmodified', frame_equal(snap[k], case[k]), 'X modified by transform with copy=True')
+    # ... also after a refused second fit (the refusal must not leave the object in another configuration)
+    r2 = outcome(lambda: o1.fit(case['X'], case['y']))
+    if r2[0] == 'reject':
+        outcome(lambda: o1.transform(case['X']))
+        rec('C07:transform#frame.caller_data_unmodified', frame_equal(snap['X'], case['X']), 'X modified by transform with copy=True after a refused second fit', dict(after='refused_second_fit'))
+        rec('C07:transform#frame.fitted_state_unchanged', getattr(o1, 'copy', True) is True, 'copy flag is %r after a refused second fit' % getattr(o1, 'copy', None), dict(after='refused_second_fit'))
     if kind in ('BinaryCarver', 'ContinuousCarver') and case['X_dev'] is None:
         try:
             o2 = zoo.make_carver(case, cfg); ft = o2.fit_transform(case['X'], case['y'])
